@@ -9,8 +9,11 @@
    the fuel read_session gives it: every iteration that continues moves the get position forward by at least
    one byte (Lib/TermFacts.v: the stream on arbitrary positions, read programs that only seek forward, the
    base header reader consuming 16 bytes, the seek back to the declared end never going behind it).
-   PARTIAL: the inflating stage (cont_loop, std::fstream flavour) has no termination theorem, and
-   memory-safety outside the decoders (container copy in UncompressedFile, zlib) is decided by
+   C10_read_session_terminates: the same for the whole sequential read session — header, inflating stage
+   (cont_loop over the std::fstream flavour: every accepted container lies inside the file and moves the
+   position on by at least its 16-byte base header) and parser stage — for EVERY file content, every cap and
+   whatever zlib answers.
+   PARTIAL: memory-safety outside the decoders (container copy in UncompressedFile, zlib) is decided by
    differential execution under ASan/UBSan + watchdog on truncations, field mutations and
    hand-assembled hostile headers. *)
 From Coq Require Import String List Bool.
@@ -57,3 +60,9 @@ Theorem C10_termination_premises :
   forallb (fun p => (snd p =? 0)%Z || class_ok cs (snd p)) factory_table = true.
 Proof. split; [exact scan_rules_back_at_most_3|]. split; [exact ohb_reader_shape|exact factory_classes_ok_b]. Qed.
 Print Assumptions C10_termination_premises.
+
+(* the whole read session never hangs: for every file content, every allocation cap, whatever zlib answers *)
+Theorem C10_read_session_terminates : forall (inflate : list Z -> Z -> option (list Z)) cap (bytes : list Z),
+  r_cend (f_read_session inflate cap bytes) <> EndFuel /\ r_oend (f_read_session inflate cap bytes) <> EndFuel.
+Proof. exact read_session_terminates. Qed.
+Print Assumptions C10_read_session_terminates.
